@@ -360,13 +360,16 @@ def _option_with_other_deriver(spec):
             origins_of.setdefault(o, []).append(c['origin'])
     has_out = {u for u, _ in spec.get('edges', [])} | {c['origin'] for c in spec.get('choices', [])}
 
+    perm = _permanent_nodes(spec)
+
     def harmless(o):
-        # a leaf option node (derives nothing, carries no choice, no derivation in-edge) shared by choices on DIFFERENT
-        # originating nodes: whichever choice selects it, the same is confirmed (only the node itself), so the per-node
+        # a leaf option node (derives nothing, carries no choice, no derivation in-edge) shared by choices on DIFFERENT,
+        # PERMANENT originating nodes: whichever choice selects it, the same is confirmed (only the node itself), so the per-node
         # bookkeeping of the influence matrix cannot mix anything up (unless the node takes part in an incompatibility:
         # the 'infeasible option' flag is per node too)
         return n_in.get(o, 0) == 0 and o not in has_out and \
-            len(set(origins_of[o])) == len(origins_of[o]) and not any(o in p_ for p_ in spec.get('incompat', []))
+            len(set(origins_of[o])) == len(origins_of[o]) and not any(o in p_ for p_ in spec.get('incompat', [])) and \
+            all(org in perm for org in origins_of[o])
     return any((n_opt[o] > 1 or n_in.get(o, 0) > 0) and not harmless(o) for o in n_opt)
 
 
